@@ -44,7 +44,7 @@ def gen(seed, tier):
                         continue
                     for mn in (False, True):
                         table = sc.gen_table(r, n, 1, values=sc.VALUES[:3])
-                        inner = {"op": "tournament", "table": table, "problem": {"kind": "so", "min": mn}, "pop": list(range(n)), "k": k, "size": size, "repl": repl, "carried": (n + size + k) % 2 == 0}
+                        inner = {"op": "tournament", "table": table, "problem": {"kind": "so", "min": mn}, "pop": list(range(n)), "k": k, "size": size, "repl": repl, "carried": (n + size + k) % 2 == 0, "reused": (n + k) % 2 == 1}
                         cases.append({"op": "enum", "inner": inner, "limit": 5000})
     # exhaustive lexicase: populations <= 4 (thorough) / 3, <= 3 cases
     for n in ([2, 3] + ([4] if big else [])):
@@ -62,7 +62,7 @@ def gen(seed, tier):
         pop = list(range(n)) + ([r.randrange(n)] if r.random() < 0.3 else [])
         if r.random() < 0.5:
             cases.append({"op": "tournament", "table": sc.gen_table(r, n, 1, values=sc.VALUES[:5]), "problem": {"kind": "so", "min": r.random() < 0.5}, "pop": pop,
-                          "k": r.randrange(0, n + 3), "size": r.choice([1, 2, 3, 5, n + 2]), "repl": r.random() < 0.5, "dna": dna, "form": r.choice(["list", "oneshot"]), "carried": r.random() < 0.4})
+                          "k": r.randrange(0, n + 3), "size": r.choice([1, 2, 3, 5, n + 2]), "repl": r.random() < 0.5, "dna": dna, "form": r.choice(["list", "oneshot"]), "carried": r.random() < 0.4, "reused": r.random() < 0.4})
         else:
             nc = r.randrange(1, 5)
             cases.append({"op": "lexicase", "table": sc.gen_table(r, n, nc, values=sc.VALUES[:5]), "mins": [r.random() < 0.5 for _ in range(nc)], "pop": pop,
